@@ -197,7 +197,7 @@ def run(ctx):
     if bad:
       key = f'replay:{name}{"(mu>0)" if kw.get("mu") else ""}:params'
       empty_round = any(sum(len(inst['data'][cl - 1]) for cl in co) == 0 for co in inst['cohorts'])
-      if name == 'hyp_cluster' and empty_round and inst['sopt']['kind'] == 'mom':
+      if name == 'hyp_cluster' and empty_round and inst['sopt']['kind'] != 'sgd':
         # is the run EXACTLY what the specification gives when a round without examples is skipped altogether?
         alt = island.oracle(ctx, [oinst], f'skip{len(skip_checked)}', extra_consts={'ApplyOnEmpty': False})[0]
         skip_checked.append(1)
